@@ -1,6 +1,62 @@
+import GrafeoModel.Model.Lex2Cypher
+import GrafeoModel.Model.Lex2Sparql
 import GrafeoModel.Driver.Proto
-/-! stream `lex2` (stub; replaced by its builder) -/
+import GrafeoModel.Driver.Lex
+
+/-!
+Stream `lex2` (C12): the Cypher, SPARQL, GraphQL and Gremlin lexers.  Stateless lines; query text =
+lowercase hex of its UTF-8 bytes (`-` = empty).
+
+  lex2 <lang> <hex> [<alpha> <num>]      CORRESPONDENCE: the token list of the language's `tokenize`
+                                         in `Model/Lex2*.lean` (the functions the theorems of
+                                         `Props/C12Lex2.lean` are about) as `kind:start-end,…`;
+                                         `spec = -` (the token list itself is not constrained)
+  lex2 <lang>.ok <hex> [<alpha> <num>]   model = `verdict` computed on that token list (every span on
+                                         character boundaries, ordered, non-empty unless `eof`,
+                                         exactly one `eof`, last, at most chars+1 tokens);
+                                         spec = `ok` (what `c12_boundary` / `c12_progress` /
+                                         `c12_terminates` / `c12_ordered` prove for every input)
+
+`<alpha>` / `<num>` (graphql, gremlin only): the non-ASCII code points of the text for which
+`char::is_alphabetic` / `char::is_numeric` hold — the models take these two Unicode tables as
+parameters (the theorems hold for every such pair of predicates).
+-/
 open Grafeo Grafeo.Proto
 namespace DriverLex2
-def handle (_args : List String) : Option Out := none
+open Grafeo.Lex (utf8Len)
+open Grafeo.Lex2
+
+def kName : K → String
+  | .eof => "eof" | .error => "error" | .str => "str" | .lstr => "lstr" | .qid => "qid"
+  | .int => "int" | .dec => "dec" | .flt => "flt" | .word => "word" | .punct => "punct"
+  | .var => "var" | .iri => "iri" | .pname => "pname" | .bnode => "bnode"
+
+def showTok (t : Tok) : String := s!"{kName t.k}:{t.start}-{t.stop}"
+
+/-- the harness stops after 10000 tokens and appends `runaway` when no `eof` arrived by then -/
+def maxTokens : Nat := 10000
+
+def showToks (ts : List Tok) : String :=
+  if ts.length > maxTokens then joinWith "," ((ts.take maxTokens).map showTok ++ ["runaway"])
+  else joinWith "," (ts.map showTok)
+
+/-- (token list, offset width) of one language; `none` = unknown language / malformed arguments -/
+def lexOf (lang : String) (cs : List Char) (extra : List String) : Option (List Tok × (Char → Nat)) :=
+  match lang, extra with
+  | "cypher", [] => some (Cypher.tokenize cs, utf8Len)
+  | "sparql", [] => some (Sparql.tokenize cs, utf8Len)
+  | _, _ => none
+
+def handle (args : List String) : Option Out :=
+  match args with
+  | lang :: h :: extra => do
+    let cs ← DriverLex.parseText h
+    if lang.endsWith ".ok" then
+      let (ts, w) ← lexOf (lang.dropRight 3) cs extra
+      pure { model := verdict w cs ts, spec := "ok", sig := if verdict w cs ts == "ok" then "-" else "lex2-" ++ lang }
+    else
+      let (ts, _) ← lexOf lang cs extra
+      pure { model := showToks ts }
+  | _ => none
+
 end DriverLex2
